@@ -2,6 +2,8 @@ import FitProps.LinkLemmasInteg
 import FitProps.LinkLemmasLoop
 import FitProps.LinkLemmasAcct
 import FitProps.LinkLemmasRaw
+import FitProps.LinkLemmasWire
+import FitProps.C01
 import FitProps.C16
 import FitProps.C04
 import FitProps.C08
@@ -313,13 +315,17 @@ def Link_wire_eq_decprog_full : Prop :=
     wireObsA (Wire.decodeStream tsKnown chk (bs.length + 1) true bs) =
       wireObsD (runExact (DecProg.decodeLoop chk (bs.length + 1) true []) bs)
 
-/-- the sub-domain on which the link is expected (exercised by the driver op `linkwire` on every decw line, not proved): streams on
-which every field description (A) records has a valid base type -/
-def Link_wire_eq_decprog_partial_stmt : Prop :=
-  ∀ (tsKnown : Nat → Bool) (chk : Bool) (bs : List Nat), (∀ b ∈ bs, b < 256) →
-    fdValidA (Wire.decodeStream tsKnown chk (bs.length + 1) true bs).1 = true →
-    wireObsA (Wire.decodeStream tsKnown chk (bs.length + 1) true bs) =
-      wireObsD (runExact (DecProg.decodeLoop chk (bs.length + 1) true []) bs)
+/-- **(A) = (D) wherever (D) does not report an invalid base type.** For EVERY byte list (no hypothesis on the bytes), both
+checksum settings, every fuel and whatever the factory tells (A) about timestamps: if the run of the reader-client model (D)
+does not end with `invalidBaseType`, the wire model (A) of C01 and (D) report the same definitions, the same messages (header
+byte, global number, bytes of every field of non-zero size), the same sequence headers and CRCs and the same error class.
+(Where (D) does end so — an invalid base type in a definition, where (A) agrees, or in a field description a developer field
+refers to, where (A) is wrong: `Link_wire_full_false` — nothing is claimed.) -/
+theorem Link_wire_eq_decprog_partial (tsKnown : Nat → Bool) (chk : Bool) (bs : List Nat) (fuel : Nat)
+    (h : (runExact (DecProg.decodeLoop chk fuel true []) bs).status ≠ some .invalidBaseType) :
+    wireObsA (Wire.decodeStream tsKnown chk fuel true bs) = wireObsD (runExact (DecProg.decodeLoop chk fuel true []) bs) := by
+  have := streamW tsKnown chk fuel true [] bs h
+  simpa [wireObsA] using this.symm
 
 /-- the stream of disagreement D1 (notes/links.md): a `field_description` with fit_base_type_id 0x55, then a developer field
 that refers to it -/
@@ -340,5 +346,37 @@ theorem Link_wire_full_false : ¬ Link_wire_eq_decprog_full ∧
   have := h (fun _ => true) false d1Stream (by decide)
   revert this
   decide +kernel
+
+/-- **C01's round trip seen by (D).** For every chain of encoder outputs (any options, any message lists that pass C01's
+typing hypotheses): if the decoder does not report an invalid base type on it, then what the reader-client model (D) observes
+is the run C01 describes — no error, one sequence per encoded sequence, and messages whose header, number and FIELD BYTES are
+those written (`FitMatches`); in particular every `msg` event of (D) carries the bytes the encoder marshalled. -/
+theorem Link_C01_chain_decprog (tsKnown : Nat → Bool) (chk : Bool) (o : Wire.Opts) (ho : Wire.OptsOK o)
+    (fits : List (Wire.Hdr × List Wire.WMsg)) (hne : fits ≠ []) (hall : ∀ f ∈ fits, Wire.FitOK o f.1 f.2)
+    (h : (runExact (DecProg.decodeLoop chk (fits.length + 1) true []) (Wire.encodeChain o fits)).status ≠ some .invalidBaseType) :
+    ∃ evs, wireObsD (runExact (DecProg.decodeLoop chk (fits.length + 1) true []) (Wire.encodeChain o fits)) = (evs.map wevOfA, none) ∧
+      Wire.AllMatch (Wire.FitMatches o) fits (Wire.seqsOf evs) := by
+  obtain ⟨evs, hd, hm⟩ := C01.C01_wire_chain tsKnown chk o ho fits hne hall
+  refine ⟨evs, ?_, hm⟩
+  rw [← Link_wire_eq_decprog_partial tsKnown chk _ _ h, hd]
+  rfl
+
+/-- non-vacuity: on C01's example chain (compressed timestamps, developer fields, big-endian, LRU of 2) the decoder reports no
+error at all -/
+example : (runExact (DecProg.decodeLoop true 2 true []) (Wire.encodeChain C01.exOpts [(⟨14, 32, 2158⟩, C01.exMsgs)])).status = none := by
+  decide +kernel
+
+open Fit.DecApi in
+/-- … and by the API model (C): its `Decode()` calls return `apiOf` of that observation — the values of the decoded messages are
+those the decoder's value functions give on exactly the written field bytes. -/
+theorem Link_C01_chain_api (tsKnown : Nat → Bool) (oa : Opts) (o : Wire.Opts) (ho : Wire.OptsOK o)
+    (fits : List (Wire.Hdr × List Wire.WMsg)) (hne : fits ≠ []) (hall : ∀ f ∈ fits, Wire.FitOK o f.1 f.2)
+    (hb : DecApi.IsBytes (Wire.encodeChain o fits)) (hlen : (Wire.encodeChain o fits).length < 4294967296)
+    (hfac : FacOK oa.fac) (hbt : facBtOK oa.fac = true) (hfd : facFdOK oa.fac = true)
+    (h : (runExact (DecProg.decodeLoop oa.chk (fits.length + 1) true []) (Wire.encodeChain o fits)).status ≠ some .invalidBaseType) :
+    ∃ out evs, normCalls (apiLoop (fits.length + 1) (Api.fresh oa (Wire.encodeChain o fits))) = apiOf oa out ∧
+      wireObsD out = (evs.map wevOfA, none) ∧ Wire.AllMatch (Wire.FitMatches o) fits (Wire.seqsOf evs) := by
+  obtain ⟨evs, h1, h2⟩ := Link_C01_chain_decprog tsKnown oa.chk o ho fits hne hall h
+  exact ⟨_, evs, Link_decprog_eq_api oa _ _ hb hlen hfac hbt hfd, h1, h2⟩
 
 end Fit.Links
